@@ -46,6 +46,9 @@ def gen_cases(tier, seed):
     for i in range(300 if q else 6000):
         yield "history", {"salt": rng.getrandbits(40), "max": rng.choice([64, 100, 256]), "start": ["empty", "empty", "prepopulated", "twelve_full"][i % 4],
                           "fork": i % 5 == 0}
+    for dn in ("node.data/blocks", "blk.dat.d/blocks", "my.dat", "blkchain/x.dat.y", "blocks.dat/", "a blk b/.dat"):
+        for rep in range(2 if q else 8):
+            yield "history", {"salt": rng.getrandbits(40), "max": 64, "start": ["empty", "prepopulated"][rep % 2], "fork": False, "dirname": dn}
     for nf in (9, 10, 11, 12, 20, 21, 22, 30, 31, 100, 101, 110, 111):
         for rep in range(2 if q else 10):
             yield "history", {"salt": rng.getrandbits(40), "max": 64, "start": f"files:{nf}", "fork": rep % 2 == 1}
@@ -58,7 +61,7 @@ def gen_cases(tier, seed):
 
 def required(tier):
     return {"hist.batches": 3000, "hist.rollover.exact_fit": 200, "hist.rollover.one_byte_over": 200, "hist.rollover.new_file": 500,
-            "hist.start.twelve_full": 50, "hist.start.n_files": 20, "hist.forked_batches": 100, "crash.points": 800, "crash.variant.torn": 150,
+            "hist.start.twelve_full": 50, "hist.start.n_files": 20, "hist.start.path_with_dat_or_blk": 10, "hist.forked_batches": 100, "crash.points": 800, "crash.variant.torn": 150,
             "crash.variant.writethrough": 150, "crash.variant.buffered": 150, "audit.opens": 3000, "exh.histories": 1500}
 
 
@@ -262,8 +265,10 @@ def run_case(kind, params, ctx):
     rng = rng_for("C19", kind, params["salt"])
     d = tempfile.mkdtemp(prefix="c19-", dir=SCRATCH)
     try:
-        dd = os.path.join(d, "blocks")
+        dd = os.path.join(d, params.get("dirname", "blocks").rstrip("/")) if kind == "history" else os.path.join(d, "blocks")
         if kind == "history":
+            if params.get("dirname"):
+                ctx.count("hist.start.path_with_dat_or_blk")
             model = _start_dir(rng, mx, params["start"], dd)
             if params["start"] == "twelve_full":
                 ctx.count("hist.start.twelve_full")
